@@ -15,36 +15,9 @@ from dali.device import helpers as H
 import contracts.frame as CF
 import contracts.command as CC
 from checks.c01 import USE as USE0
-from checks.c19 import luba_proto, sci_proto, q_items, dist_queue, LUBA, SCI, LS, SS
+from checks.c19 import luba_proto, sci_proto, q_items, dist_queue, LUBA, SCI, LS, SS, decoded_under, check_observed
 
 USE = USE0 + [CC.KEY]
-
-
-def decoded_under(c):
-    f = c.fields if isinstance(c, SObj) else vars(c)
-    return f.get("_decoded_under")
-
-
-def check_observed(ctx, interp, item, bits, data, prev_dt, dmap, label=""):
-    """the delivered item is from_frame(ForwardFrame(bits, data), devicetype=prev_dt, dev_inst_map=dmap)"""
-    fr = interp.get_attr(item, "frame")
-    ctx.prove(label + "item-is-a-command-with-the-observed-bits", And(is_instance(item, C.Command), fr._bits == bits, fr._data == data))
-    if type_of(item) is G.EnableDeviceType:
-        ctx.prove(label + "enable-device-type-recognised", And(bits == 16, (data >> 8) == 0xC1, item.param == (data & 0xFF)))
-        return
-    if getattr(ctx, "native", False):
-        # replay on the real code: the delivered object is what the real decoder makes of the frame in this context
-        want = C.from_frame(F.ForwardFrame(bits, data), devicetype=prev_dt, dev_inst_map=dmap)
-        ctx.prove(label + "decoded-through-from_frame", type(item) is type(want) and item.frame == want.frame
-                  and str(item) == str(want), detail="delivered %s, decoder gives %s" % (item, want))
-        return
-    du = decoded_under(item)
-    ok = du is not None
-    ctx.prove(label + "decoded-through-from_frame", ok)
-    if ok:
-        ctx.prove(label + "decoded-with-the-device-type-of-the-preceding-frame-only", interp.truth(interp.eq(du[0], prev_dt)),
-                  detail="device type used %r, announced %r" % (du[0], prev_dt))
-        ctx.prove(label + "decoded-with-the-drivers-instance-map", du[1] is dmap)
 
 
 def units(tier):
@@ -61,13 +34,14 @@ def units(tier):
             world = World(ctx, interp)
             install(interp, world)
             prev = ctx.int("prev_rx_devicetype", 0, 255)
+            prev_tx = ctx.int("prev_tx_devicetype", 0, 255)
             dmap = ctx.new(H.DeviceInstanceTypeMapper, _mapping={})
             data = [ctx.int("d%d" % i, 0, 255) for i in range(nbytes)]
             info = ctx.int("bits_info", 1, 32)
             payload = [ctx.int("tick_hi", 0, 255), ctx.int("tick_lo", 0, 255), 0, 0x80 | info] + data
             L = len(payload)
             buf = [0x59, 0x31, L] + payload + [None] * (21 - L)
-            p, kids = luba_proto(ctx, world, LS.WAIT_CHECKSUM, buf, L, L, prev_rx=prev, dmap=dmap)
+            p, kids = luba_proto(ctx, world, LS.WAIT_CHECKSUM, buf, L, L, prev_rx=prev, prev_tx=prev_tx, dmap=dmap)
             frame = tuple(buf[:L + 3] + [0])
             try:
                 interp.call(interp.get_attr(p, "_process_luba_event"), (frame,), {})
@@ -86,6 +60,8 @@ def units(tier):
             is_edt = And(nbytes == 2, data[0] == 0xC1)
             ctx.prove("device-type-memory", p._prev_rx_enable_dt == ite(is_edt, data[1], 0),
                       detail="an enable-device-type frame is remembered for the next frame only")
+            ctx.prove("device-type-of-the-transmitted-stream-untouched", p._prev_tx_enable_dt == prev_tx,
+                      detail="a frame seen on the bus changed the device type remembered for the gateway's own transmissions")
             ctx.prove("not-mistaken-for-an-answer", len(q_items(p._queue_rx_raw_dali)) == 0)
         unit("serial/luba/observed-%d-bit" % (8 * nbytes), r_luba)
 
@@ -456,7 +432,8 @@ def watcher_units(unit):
     unit("hid/tridonic-watcher-step", r_watch,
          loops={(WATCH, 0): LoopSpec("watch", inv, havoc, roles={
              "pending": ("current_command", lambda v: v is None),
-             "devicetype": ("devicetype", lambda v: isinstance(v, int) and not isinstance(v, bool) and v == 0)})})
+             "devicetype": ("devicetype", lambda v: isinstance(v, int) and not isinstance(v, bool) and v == 0)},
+             anchor=("_bus_watch_data_available",))})
 
 
 # checks whose proof units establish the callee contracts applied here (re-verified by this check, see main.dependency_units)
